@@ -8,10 +8,11 @@ EXTENDS ScannerData, TLC, IOUtils, Naturals, Sequences, FiniteSets
 MaxLen == atoi(IOEnv.MAXLEN)
 CheckEof == IOEnv.CHECKEOF # "0"
 Family == IOEnv.FAMILY
+OldSize == IOEnv.OLDSIZE = "1"           \* "1" = design before the `lda.`-at-line-end fix (spec mutant)
 Shard == atoi(IOEnv.SHARD)
 NShards == atoi(IOEnv.NSHARDS)
 
-S == INSTANCE Scanner WITH TableMnemonics <- MnemonicSeqs, NakedMnemonics <- NakedSeqs, Keywords <- KeywordSeqs
+S == INSTANCE Scanner WITH TableMnemonics <- MnemonicSeqs, NakedMnemonics <- NakedSeqs, Keywords <- KeywordSeqs, SizeEatsNewline <- OldSize
 
 AlphaSeq == IF Family = "comments" THEN <<"n", "o", "p", " ", "\n", ";", "/", "*", "'", "\\", ".", "0">>
             ELSE IF Family = "operands" THEN <<"l", "d", "a", " ", ".", "w", "#", "(", ")", ",", "x", "1", "\n">>
@@ -27,5 +28,6 @@ Good == LET r == Result IN
         /\ r.st # "spin"                                  \* C15: no input makes a loop stop advancing
         /\ r.st \in {"done", "err"}                         \* finishes with tokens or a reported error
         /\ S!PositionLaw(r)                                 \* C17: line / column of every token
+        /\ S!ErrorLaw(r)                                    \* C17: line / column of the listed lexical errors
         /\ (r.st = "err" => r.eline = S!NewlinesBefore(inp, r.pos) \/ r.eline <= S!NewlinesBefore(inp, Len(inp)))
 =============================================================================
